@@ -355,6 +355,22 @@ class DecimalDomain:
             return Adt("core::ops::ControlFlow", "Continue" if v.variant == "Some" else "Break", list(v.fields))
         if n == "from_residual":
             return Adt("core::option::Option", "None", [])
+        if n == "successors" and len(a) == 2 and isinstance(a[0], Adt) and a[0].variant in ("Some", "None"):
+            return ("succ", a[0], args[1])
+        if n == "take" and len(a) == 2 and isinstance(a[0], tuple) and a[0][:1] == ("succ",) and isinstance(a[1], int) and a[1] <= 64:
+            # iter::successors(first, f).take(k): first, f(first), f(f(first)), … — k elements, or fewer once f says None
+            from core.absexec import CoreIter, call_value, Frame, Ref as _Ref
+            items, cur = [], a[0][1]
+            while len(items) < a[1] and isinstance(cur, Adt) and cur.variant == "Some" and cur.fields:
+                items.append(cur.fields[0])
+                if len(items) == a[1]:
+                    break
+                hf = Frame(fr.body, [])
+                hf.env[0] = cur.fields[0]
+                cur = deref_value(ex, call_value(ex, a[0][2], [_Ref(hf, 0)]))
+            if isinstance(cur, Adt) and cur.variant in ("Some", "None"):
+                return CoreIter(items)
+            return TOP
         if n == "collect" and len(a) == 1:
             from core.absexec import CoreIter
             if isinstance(a[0], CoreIter):
